@@ -94,7 +94,8 @@ def _blake_resolve(cfg):
 
 fam("Blake", "blake.blake.Blake",
     {"pair": _PAIRS, "ref_density": [3000.0, 1000.0], "cavity_radius": [0.1, 0.3], "pressure_scale": [1.0e6, 5.0e7]},
-    lambda c: [4.0e-5, 1.6e-4, 4.0e-4], lambda c, t, s: c.get("cavity_radius", 0.1) + 1.5 * _fr(12), resolve=_blake_resolve)
+    # the last time is the late-time (static) limit, 2500 transit times after the default snapshot (seeded change S3-C20-3)
+    lambda c: [4.0e-5, 1.6e-4, 4.0e-4, 1.0], lambda c, t, s: c.get("cavity_radius", 0.1) + 1.5 * _fr(12), resolve=_blake_resolve)
 
 # ------------------------------------------------------------------------------------------------- burn-time solvers
 
